@@ -6,3 +6,7 @@ check("C09", "exploration", "Hypothesis value trees + relational oracle (len / b
       "Generated message values over the kitchen-sink corpus (constructed, attribute-assigned, or parsed with interleaved unknown fields) are each checked for len(m)==len(bytes(m)), dump()==bytes(m), delimited dump == spec varint prefix + bytes(m), SerializeToString()==bytes(m); sizes around the 1/2/3-byte length-prefix boundaries are forced.",
       "Samples the value space; the length prefix oracle is the spec varint encoder in vf/wire.py.",
       "DESIGN.md 3/C09")
+check("C01", "exploration", "Hypothesis value trees + round-trip / idempotence oracle",
+      "Generated message values over the kitchen-sink corpus are encoded, decoded and compared through public observers (values, oneof selection, None-ness, nested presence), with ==, and by re-encoding; failures are collected per root-cause signature so the search continues behind known findings.",
+      "Samples the value space of a fixed but systematic schema corpus compiled by the current plugin; snapshots trust betterproto's public observers.",
+      "DESIGN.md 3/C01")
